@@ -136,6 +136,21 @@ Proof.
 Qed.
 
 
+(** * Scene shorthands *)
+
+Theorem shorthand_no_panic : forall s, validate_shorthand s <> ShPanic.
+Proof.
+  intros s. unfold validate_shorthand. destruct (zlen s =? 1) eqn:E; cbn [negb]; [|discriminate].
+  apply Z.eqb_eq in E. destruct s as [|c [|d tl]].
+  - discriminate.
+  - cbn. destruct (latin1_letter_or_number c); discriminate.
+  - rewrite !zlen_cons in E. pose proof (zlen_nonneg tl). lia.
+Qed.
+
+Example shorthand_len_gt_panics :
+  validate_shorthand_len_gt [] = ShPanic /\ validate_shorthand [] = ShBadLength.
+Proof. split; reflexivity. Qed.
+
 (** * preprocReplace *)
 
 Lemma x_tilde_not_word : is_word x_tilde = false.
